@@ -255,6 +255,12 @@ def explore_case(case, res, timeout_ms=4000, max_paths=4000, deadline=None, moni
         npaths += 1
         if isinstance(out, symx.Abort):
             res.out_of_bound += 1
+            if str(out.why).startswith('unsupported'):
+                # the proxies cannot follow the code here (e.g. math.fmod needs a real double):
+                # fall back to concrete runs on solver models of the path so far.  A hit is a replayed
+                # violation; a miss leaves the path undecided (counted, never a pass).
+                res.extra['unsupported_paths'] = res.extra.get('unsupported_paths', 0) + 1
+                _concretise(ctx, case, prog, slots, res, extra_concrete, str(out.why))
             continue
         kind, payload = out
         if kind == 'skip':
@@ -297,6 +303,39 @@ def explore_case(case, res, timeout_ms=4000, max_paths=4000, deadline=None, moni
     if not symx.explore.last_exhaustive:
         res.exhaustive = False
     res.sample({'tag': case.tag, 'script': case.text[:400], 'paths': npaths})
+
+
+REGIONS = [None, ('<', 0), ('>', 0), ('>', 360), ('<', -360), ('>', 65535), ('>', 100)]
+
+
+def _concretise(ctx, case, prog, slots, res, extra_concrete, why, k=8):
+    import random
+    rng = random.Random(len(case.text))
+    ctx.deadline = None
+    tried = 0
+    vars_ = [c for n, c in ctx.vars.items() if n.startswith('n')]
+    for i in range(k * 3):
+        if tried >= k:
+            break
+        extra = []
+        for c in vars_:
+            r = rng.choice(REGIONS)
+            if r is not None and z3.is_real(c):
+                extra.append(c < r[1] if r[0] == '<' else c > r[1])
+        if ctx.check(*extra) != 'sat':
+            continue
+        model = ctx.solver.model()
+        tried += 1
+        vals = concrete_values(case, ctx.model_values(model))
+        msg = judge_concrete(case, prog, slots, vals, extra_concrete)
+        res.extra['concretised_runs'] = res.extra.get('concretised_runs', 0) + 1
+        if msg is not None:
+            text = text_with_values(case, vals)
+            sig = '%s|%s' % (case.tag, _sig_of(msg))
+            res.violation(sig, '%s\n  found by concrete runs on solver models of a path the proxies could not follow (%s)\n  script:\n%s'
+                          % (msg, why, text), inputs={'script': text, 'values': vals}, replayed=True)
+            return
+    res.inconclusive.append('%s: path not followed symbolically (%s); %d concrete runs on its models agree with the oracle' % (case.tag, why, tried))
 
 
 def _report(ctx, case, prog, slots, model, what, res, extra_concrete=None):
